@@ -68,6 +68,29 @@ def run(tier):
         for W in (1, 2):
             ex.add('header', 'fast', ['-cdf', '-n%d' % W], data, orc, '%s W=%d' % (name, W), {})
         chk.leg('header', reference_runs=1)
+    # the copy must not depend on what the process did before: the same pass-through as the second
+    # operand, after an operand that was decompressed, copied, skipped or empty (real files, -c -d -f)
+    import os
+    from lib import fsx
+    root = common.scratch('c19m')
+    hist = sched.Explorer(chk, par=4, jobs=4, scratch=ex.dir)
+    firsts = {'bz': ('a.bz2', valid, b'hello, copy path\n' * 20), 'plain': ('q', b'first plain operand\n', b'first plain operand\n'),
+              'plain70k': ('q', tail[:70000], tail[:70000]), 'empty': ('e', b'', b''), 'emptybz': ('e.bz2', bz2.compress(b''), b''),
+              'missing': ('nope', None, b'')}
+    seconds = [4, 5, 12, 65536, 70000, 140000] if not quick else [4, 12, 70000, 140000]
+    k = 0
+    for fname, (fn, fdata, fout) in firsts.items():
+        for n in seconds:
+            second = b'xy' + tail[1000:1000 + n - 2]
+            t = os.path.join(root, 't%d' % k); w = os.path.join(root, 'w%d' % k); k += 1
+            os.makedirs(t); os.makedirs(w)
+            if fdata is not None:
+                fsx.make_file(os.path.join(t, fn), fdata, 0o644)
+            fsx.make_file(os.path.join(t, 'p'), second, 0o644)
+            orc = sched.expect_exact(4 if fdata is None else 0, fout + second, stderr_empty=fdata is not None, allow_inv=4)
+            hist.add('copy-after-' + fname, 'fast', ['-n2', '-c', '-d', '-f', fn, 'p'], None, orc, 'first=%s second n=%d' % (fname, n),
+                     {'fs_template': t, 'fs_work': w})
+    hist.run_pass(1 if quick else 2)
     maxd = 3 if quick else 4
     pol.run_pass(1)
     done = 0
@@ -83,6 +106,7 @@ def run(tier):
         done = d
     chk.cov['bound_completed_all_cells'] = done
     pol.finish_cov('')
+    hist.finish_cov('copy as the second operand after a decompressed / copied / empty / missing first operand, all schedules with <= 1 (2) deviations.')
     ex.finish_cov('all executions with <= d deviations (schedule choices of main/reader/writer, short reads of 1 byte / half) '
                   'per input; oracle: status 0, stdout == input, stderr empty; header inputs: same outcome as plain -d.')
     chk.assumptions += ['pipe fragmentation is modelled by read() returning fewer bytes than asked']
